@@ -10,6 +10,7 @@ from .._schema_visitor import SchemaVisitor
 from .._schema_visitor import SchemaVisitorReturnType as ReturnType
 from ..errors import (
     DeclarationError,
+    _repr,
     make_already_declared_error,
     make_incorrect_len_error,
     make_incorrect_max_len_error,
@@ -150,7 +151,7 @@ class StrSchema(Schema[StrProps]):
         if self.props.value is not Nil:
             missing_letters = {x for x in self.props.value if x not in letters}
             if len(missing_letters) > 0:
-                message = f"`{self!r}` alphabet is missing letters: "
+                message = f"`{_repr(self)}` alphabet is missing letters: "
                 message += repr("".join(sorted(missing_letters)))
                 raise DeclarationError(message)
 
@@ -168,7 +169,7 @@ class StrSchema(Schema[StrProps]):
 
         if self.props.value is not Nil:
             if substr not in self.props.value:
-                message = f"`{self!r}` does not contain {substr!r}"
+                message = f"`{_repr(self)}` does not contain {substr!r}"
                 raise DeclarationError(message)
 
         return self.__class__(self.props.update(substr=substr))
@@ -190,7 +191,7 @@ class StrSchema(Schema[StrProps]):
 
         if self.props.value is not Nil:
             if re.search(pattern, self.props.value) is None:
-                message = f"`{self!r}` does not match {pattern!r}"
+                message = f"`{_repr(self)}` does not match {pattern!r}"
                 raise DeclarationError(message)
 
         return self.__class__(self.props.update(pattern=pattern))
